@@ -1,9 +1,13 @@
 (* JsonNumP.v - proofs about the JSON number model (JsonNum.v).
-   A. reading the text, integer conversions      B. the scanning helpers (skip_digits, count_in_row,
-   strnchr, strtoll)                              C. the allocated block (wrb, fillb, copy_loop)
-   D. lex_number                                  E. number_is_zero
-   F. lyjson_exp_number, one lemma per layout     G. lyjson_number: no_oob, len_bounded
-   H. the refutation witnesses and a finite sweep of denotes_ok *)
+   A. reading the text, integer conversions, pieces of the text as lists
+   B. the scanning helpers (skip_digits, count_in_row, strnchr, strtoll)
+   C. the allocated block and its CONTENT (wrb, fillb, copy_loop)
+   D. lex_number                                  E. lyjson_number_is_zero
+   S. what a decimal text denotes (digits_val, dec_denote, json_denote, same_value)
+   F. lyjson_exp_number, one lemma per layout: no access leaves its object, the byte count is exact, the
+      text produced denotes mantissa x 10^exponent
+   G. lyjson_number: no_oob, len_exact, denotes    H. regression witnesses and a finite sweep
+   The model transcribes the code after the fix of /repo commit 63186d2 (layout 2 of lyjson_exp_number). *)
 From LY Require Import Base JsonNum.
 From Coq Require Import ZifyBool ZifyNat ZifyN.
 Local Open Scope Z_scope.
@@ -160,50 +164,138 @@ Proof.
     intros k Hk Hall Hne. rewrite (Hall i) in Hd by lia. discriminate.
 Qed.
 
-(* ================= C. the allocated block ================= *)
-(* cells 0 .. k-1 have been written *)
-Definition pinit (b : buffer) (k : Z) : Prop :=
-  forall j, 0 <= j < k -> exists v, nth_error b (Z.to_nat j) = Some (Some v).
+
+(* ---------- pieces of the text as lists: sub s a b = bytes a .. b-1 ---------- *)
+Definition sub (s : bytes) (a b : Z) : bytes := firstn (Z.to_nat (b - a)) (skipn (Z.to_nat a) s).
+Definition isd (c : N) : Prop := is_digit c = true.
+
+Lemma sub_nil s a b : b <= a -> sub s a b = [].
+Proof. intro H. unfold sub. replace (Z.to_nat (b - a)) with 0%nat by lia. reflexivity. Qed.
+
+Lemma skipn_nth_cons (l : bytes) : forall n, (n < length l)%nat -> skipn n l = nth n l 0%N :: skipn (S n) l.
+Proof.
+  induction l as [|x l IH]; intros n Hn; cbn [length] in Hn; [lia|].
+  destruct n as [|n]; [reflexivity|]. cbn [skipn nth]. rewrite IH by lia. reflexivity.
+Qed.
+
+Lemma sub_cons s a b : 0 <= a < b -> a < Ln s -> sub s a b = bat s a :: sub s (a + 1) b.
+Proof.
+  intros Hab Hl. unfold sub, bat. rewrite skipn_nth_cons by lia.
+  replace (Z.to_nat (b - a)) with (S (Z.to_nat (b - (a + 1)))) by lia.
+  replace (Z.to_nat (a + 1)) with (S (Z.to_nat a)) by lia. reflexivity.
+Qed.
+
+Lemma sub_ind_aux (P : Z -> Prop) b :
+  P b -> (forall a, 0 <= a < b -> P (a + 1) -> P a) -> forall n a, Z.of_nat n = b - a -> 0 <= a -> P a.
+Proof.
+  intros Hb Hstep. induction n as [|n IH]; intros a Hn Ha.
+  - replace a with b by lia. exact Hb.
+  - apply Hstep; [lia|]. apply IH; lia.
+Qed.
+
+Lemma sub_app s a b c : 0 <= a -> a <= b <= c -> c <= Ln s -> sub s a c = sub s a b ++ sub s b c.
+Proof.
+  intros Ha Hbc Hc.
+  apply (sub_ind_aux (fun a => a <= b -> sub s a c = sub s a b ++ sub s b c) b) with (n := Z.to_nat (b - a));
+    [| |lia|lia|lia].
+  - intros _. rewrite (sub_nil s b b) by lia. reflexivity.
+  - intros a' Ha' IH _. rewrite (sub_cons s a' c) by lia. rewrite (sub_cons s a' b) by lia.
+    rewrite IH by lia. reflexivity.
+Qed.
+
+Lemma sub_length s a b : 0 <= a -> a <= b <= Ln s -> Ln (sub s a b) = b - a.
+Proof.
+  intros Ha Hb. unfold sub. rewrite firstn_length, skipn_length. lia.
+Qed.
+
+Lemma sub_one s a : 0 <= a < Ln s -> sub s a (a + 1) = [bat s a].
+Proof. intro H. rewrite sub_cons by lia. rewrite sub_nil by lia. reflexivity. Qed.
+
+Lemma sub_Forall (P : N -> Prop) s a b :
+  0 <= a -> b <= Ln s -> (forall k, a <= k < b -> P (bat s k)) -> Forall P (sub s a b).
+Proof.
+  intros Ha Hb. destruct (Z_le_gt_dec b a) as [Hle|Hgt]; [intros _; rewrite sub_nil by lia; constructor|].
+  apply (sub_ind_aux (fun a => (forall k, a <= k < b -> P (bat s k)) -> Forall P (sub s a b)) b)
+    with (n := Z.to_nat (b - a)); [| |lia|lia].
+  - intros _. rewrite sub_nil by lia. constructor.
+  - intros a' Ha' IH Hall. rewrite sub_cons by lia. constructor; [apply Hall; lia|].
+    apply IH. intros k Hk. apply Hall. lia.
+Qed.
+
+Lemma sub_repeat s a b c :
+  0 <= a -> b <= Ln s -> (forall k, a <= k < b -> bat s k = c) -> sub s a b = repeat c (Z.to_nat (b - a)).
+Proof.
+  intros Ha Hb. destruct (Z_le_gt_dec b a) as [Hle|Hgt].
+  { intros _. rewrite sub_nil by lia. replace (Z.to_nat (b - a)) with 0%nat by lia. reflexivity. }
+  apply (sub_ind_aux (fun a => a <= b -> (forall k, a <= k < b -> bat s k = c) ->
+                                  sub s a b = repeat c (Z.to_nat (b - a))) b)
+    with (n := Z.to_nat (b - a)); [| |lia|lia|lia].
+  - intros _ _. rewrite sub_nil by lia. replace (Z.to_nat (b - b)) with 0%nat by lia. reflexivity.
+  - intros a' Ha' IH _ Hall. rewrite sub_cons by lia.
+    replace (Z.to_nat (b - a')) with (S (Z.to_nat (b - (a' + 1)))) by lia. cbn [repeat].
+    rewrite (Hall a') by lia. rewrite IH; [reflexivity|lia|]. intros k Hk. apply Hall. lia.
+Qed.
+
+Lemma sub_firstn s off : sub s 0 off = firstn (Z.to_nat off) s.
+Proof. unfold sub. rewrite Z.sub_0_r. reflexivity. Qed.
+
+Lemma slice_sub s n : slice s 0 n = map Some (sub s 0 n).
+Proof. unfold slice. rewrite sub_firstn. reflexivity. Qed.
+
+(* value of a digit string, accumulator style as digits_val / strtoll *)
+Fixpoint dval (l : bytes) (acc : Z) : Z :=
+  match l with
+  | [] => acc
+  | c :: r => dval r (10 * acc + (Z.of_N c - 48))
+  end.
+
+Lemma acc_digits_dval fuel s : forall i acc off,
+  0 <= i <= off -> off <= Ln s -> Ln s - i < Z.of_nat fuel ->
+  (forall k, i <= k < off -> is_digit (bat s k) = true) -> is_digit (bat s off) = false ->
+  acc_digits fuel s i acc = JOk (dval (sub s i off) acc).
+Proof.
+  induction fuel as [|f IH]; intros i acc off Hi Hoff Hf Hd Hnd; [lia|].
+  cbn [acc_digits]. rewrite rdin_ok by lia. cbn [jbind].
+  destruct (Z.eq_dec i off) as [->|Hne].
+  - rewrite Hnd. rewrite sub_nil by lia. reflexivity.
+  - rewrite (Hd i) by lia. assert (Hlt : i < Ln s) by lia.
+    rewrite (sub_cons s i off) by lia. cbn [dval]. apply IH; try lia; try assumption.
+Qed.
+
+(* ================= C. the allocated block and its content ================= *)
+(* cells 0 .. k-1 have been written and hold the bytes l *)
+Definition pfx (b : buffer) (k : Z) (l : bytes) : Prop :=
+  Ln l = k /\ firstn (length l) b = map Some l.
 
 Lemma upd_length b i v : length (upd b i v) = length b.
 Proof. revert i; induction b as [|x b IH]; intros [|i]; cbn [upd length]; auto. Qed.
 
-Lemma nth_error_upd_same b i v : (i < length b)%nat -> nth_error (upd b i v) i = Some (Some v).
+Lemma firstn_upd_ext (l : bytes) : forall (b : buffer) v,
+  firstn (length l) b = map Some l -> (length l < length b)%nat ->
+  firstn (length (l ++ [v])) (upd b (length l) v) = map Some (l ++ [v]).
 Proof.
-  revert i; induction b as [|x b IH]; intros [|i] H; cbn [upd nth_error length] in *; try lia; auto.
-  apply IH. lia.
+  induction l as [|c l IH]; intros b v Hf Hl.
+  - destruct b as [|x b]; [cbn [length] in Hl; lia|]. reflexivity.
+  - destruct b as [|x b]; [cbn [length] in Hl; lia|].
+    cbn [length firstn map app upd] in *. injection Hf as Hx Hf. subst x.
+    rewrite (IH b v Hf) by lia. reflexivity.
 Qed.
 
-Lemma nth_error_upd_other b i j v : i <> j -> nth_error (upd b i v) j = nth_error b j.
+Lemma firstn_upd_keep (b : buffer) : forall n i v, (n <= i)%nat -> firstn n (upd b i v) = firstn n b.
 Proof.
-  revert i j; induction b as [|x b IH]; intros [|i] [|j] H; cbn [upd nth_error]; auto; try lia.
+  induction b as [|x b IH]; intros n i v Hni; [destruct i; reflexivity|].
+  destruct n as [|n]; [reflexivity|]. destruct i as [|i]; [lia|].
+  cbn [upd firstn]. rewrite IH by lia. reflexivity.
 Qed.
 
-Lemma pinit_mono b k k' : k' <= k -> pinit b k -> pinit b k'.
-Proof. intros Hle Hp j Hj. apply Hp. lia. Qed.
-
-Lemma pinit_upd_keep b i v k : pinit b k -> pinit (upd b i v) k.
+Lemma wrb_step b k l v :
+  k < Z.of_nat (length b) -> pfx b k l ->
+  exists b', wrb b k v = JOk b' /\ length b' = length b /\ pfx b' (k + 1) (l ++ [v]).
 Proof.
-  intros Hp j Hj. destruct (Hp j Hj) as (w & Hw).
-  destruct (Nat.eq_dec i (Z.to_nat j)) as [->|Hne].
-  - exists v. apply nth_error_upd_same. apply nth_error_Some. rewrite Hw. discriminate.
-  - exists w. rewrite nth_error_upd_other by exact Hne. exact Hw.
-Qed.
-
-Lemma pinit_upd_ext b k v :
-  0 <= k < Z.of_nat (length b) -> pinit b k -> pinit (upd b (Z.to_nat k) v) (k + 1).
-Proof.
-  intros Hk Hp j Hj. destruct (Z.eq_dec j k) as [->|Hne].
-  - exists v. apply nth_error_upd_same. lia.
-  - apply (pinit_upd_keep b (Z.to_nat k) v k Hp j). lia.
-Qed.
-
-Lemma wrb_step b k v :
-  0 <= k < Z.of_nat (length b) -> pinit b k ->
-  exists b', wrb b k v = JOk b' /\ length b' = length b /\ pinit b' (k + 1).
-Proof.
-  intros Hk Hp. unfold wrb. replace ((0 <=? k) && (k <? Z.of_nat (length b))) with true by lia.
-  eexists. split; [reflexivity|]. split; [apply upd_length|]. apply pinit_upd_ext; assumption.
+  intros Hk (Hlen & Hp). unfold wrb. replace ((0 <=? k) && (k <? Z.of_nat (length b))) with true by lia.
+  eexists. split; [reflexivity|]. split; [apply upd_length|]. split.
+  - rewrite app_length. cbn [length]. lia.
+  - replace (Z.to_nat k) with (length l) by lia. apply firstn_upd_ext; [exact Hp|lia].
 Qed.
 
 Lemma fill_length b i n v : length (fill b i n v) = length b.
@@ -212,95 +304,111 @@ Proof.
   rewrite IH. apply upd_length.
 Qed.
 
-Lemma fill_pinit b i n v :
-  (i + n <= length b)%nat -> pinit b (Z.of_nat i) -> pinit (fill b i n v) (Z.of_nat (i + n)).
+Lemma fill_pfx n : forall (b : buffer) (l : bytes) v,
+  (length l + n <= length b)%nat -> firstn (length l) b = map Some l ->
+  firstn (length (l ++ repeat v n)) (fill b (length l) n v) = map Some (l ++ repeat v n).
 Proof.
-  revert b i; induction n as [|n IH]; intros b i Hle Hp; cbn [fill].
-  - replace (i + 0)%nat with i by lia. exact Hp.
-  - replace (i + S n)%nat with (S i + n)%nat by lia. apply IH.
-    + rewrite upd_length. lia.
-    + replace (Z.of_nat (S i)) with (Z.of_nat i + 1) by lia.
-      replace i with (Z.to_nat (Z.of_nat i)) at 1 by lia.
-      apply pinit_upd_ext; [lia|exact Hp].
+  induction n as [|n IH]; intros b l v Hle Hp; cbn [fill repeat].
+  - rewrite app_nil_r. exact Hp.
+  - replace (l ++ v :: repeat v n) with ((l ++ [v]) ++ repeat v n) by (rewrite <- app_assoc; reflexivity).
+    replace (S (length l)) with (length (l ++ [v])) by (rewrite app_length; cbn [length]; lia).
+    apply IH.
+    + rewrite upd_length, app_length. cbn [length]. unfold cell in *. lia.
+    + apply firstn_upd_ext; [exact Hp|unfold cell in *; lia].
 Qed.
 
-Lemma fillb_step b k n v :
-  0 <= k -> 0 <= n -> k + n <= Z.of_nat (length b) -> pinit b k ->
-  exists b', fillb b k n v = JOk b' /\ length b' = length b /\ pinit b' (k + n).
+Lemma fillb_step b k l n v :
+  0 <= n -> k + n <= Z.of_nat (length b) -> pfx b k l ->
+  exists b', fillb b k n v = JOk b' /\ length b' = length b /\ pfx b' (k + n) (l ++ repeat v (Z.to_nat n)).
 Proof.
-  intros Hk Hn Hle Hp. unfold fillb. destruct (n =? 0) eqn:Hn0.
-  - exists b. split; [reflexivity|]. split; [reflexivity|]. replace (k + n) with k by lia. exact Hp.
+  intros Hn Hle (Hlen & Hp). unfold fillb. destruct (n =? 0) eqn:Hn0.
+  - exists b. split; [reflexivity|]. split; [reflexivity|].
+    replace (Z.to_nat n) with 0%nat by lia. cbn [repeat]. rewrite app_nil_r. split; [lia|exact Hp].
   - replace ((0 <=? k) && (k + n <=? Z.of_nat (length b))) with true by lia.
-    eexists. split; [reflexivity|]. split; [apply fill_length|].
-    replace (k + n) with (Z.of_nat (Z.to_nat k + Z.to_nat n)) by lia.
-    apply fill_pinit; [lia|]. replace (Z.of_nat (Z.to_nat k)) with k by lia. exact Hp.
+    eexists. split; [reflexivity|]. split; [apply fill_length|]. split.
+    + rewrite app_length, repeat_length. lia.
+    + replace (Z.to_nat k) with (length l) by lia. apply fill_pfx; [lia|exact Hp].
 Qed.
-
-Lemma repeat_None_length n : length (repeat (@None N) n) = n.
-Proof. apply repeat_length. Qed.
 
 (* lyjson_get_buffer_for_number: either the LY_NUMBER_MAXLEN error or a block of n + 1 bytes, n + 1 <= 22 *)
 Lemma get_buffer_cases n :
   0 <= n < 9223372036854775808 ->
   get_buffer n = JErr E_MAXLEN \/
-  (n + 1 <= 22 /\ exists b, get_buffer n = JOk b /\ Z.of_nat (length b) = n + 1 /\ pinit b 0).
+  (n + 1 <= 22 /\ exists b, get_buffer n = JOk b /\ Z.of_nat (length b) = n + 1 /\ pfx b 0 []).
 Proof.
   intro Hn. unfold get_buffer. rewrite u64_id by lia. unfold LY_NUMBER_MAXLEN.
   destruct (22 <? n + 1) eqn:Hc; [left; reflexivity|right].
   split; [lia|]. eexists. split; [reflexivity|]. split.
   - rewrite repeat_length. lia.
-  - intros j Hj. lia.
+  - split; reflexivity.
 Qed.
 
+Definition sgnl (minus : Z) : bytes := if minus =? 1 then [45%N] else [].
+
+Lemma sgnl_length minus : minus = 0 \/ minus = 1 -> Ln (sgnl minus) = minus.
+Proof. intros [-> | ->]; reflexivity. Qed.
+
 Lemma maybe_minus_step b minus :
-  minus = 0 \/ minus = 1 -> 1 <= Z.of_nat (length b) ->
-  exists b', maybe_minus b minus = JOk (b', minus) /\ length b' = length b /\ pinit b' minus.
+  minus = 0 \/ minus = 1 -> 1 <= Z.of_nat (length b) -> pfx b 0 [] ->
+  exists b', maybe_minus b minus = JOk (b', minus) /\ length b' = length b /\ pfx b' minus (sgnl minus).
 Proof.
-  intros Hm Hl. unfold maybe_minus. destruct Hm as [-> | ->]; cbn [Z.eqb Pos.eqb].
-  - exists b. split; [reflexivity|]. split; [reflexivity|]. intros j Hj. lia.
-  - destruct (wrb_step b 0 45%N) as (b' & He & Hlen & Hp); [lia|intros j Hj; lia|].
-    rewrite He. cbn [jbind]. exists b'. split; [reflexivity|]. split; [exact Hlen|exact Hp].
+  intros Hm Hl Hp. unfold maybe_minus. destruct Hm as [-> | ->]; cbn [Z.eqb Pos.eqb].
+  - exists b. split; [reflexivity|]. split; [reflexivity|exact Hp].
+  - destruct (wrb_step b 0 [] 45%N) as (b' & He & Hlen & Hp'); [lia|exact Hp|].
+    rewrite He. cbn [jbind]. exists b'. split; [reflexivity|]. split; [exact Hlen|exact Hp'].
 Qed.
 
 (* number of source bytes the copy loop stores (it skips the old decimal point when it meets it) and
-   whether it inserts the new decimal point *)
+   whether it inserts the new decimal point; the bytes it stores *)
 Definition cm (n cnt dec_idx : Z) : Z := cnt - Z.b2z ((n <=? dec_idx) && (dec_idx <? n + cnt)).
 Definition cins (d dp m : Z) : Z := Z.b2z ((d <=? dp) && (dp <? d + m)).
 
-Lemma copy_loop_spec cnt : forall s num dec_idx dp b base n d,
+Fixpoint copy_list (cnt : nat) (s : bytes) (num dec_idx dp n d : Z) : bytes :=
+  match cnt with
+  | O => []
+  | S c =>
+      if n =? dec_idx then copy_list c s num dec_idx dp (n + 1) d
+      else if d =? dp then 46%N :: bat s (num + n) :: copy_list c s num dec_idx dp (n + 1) (d + 2)
+      else bat s (num + n) :: copy_list c s num dec_idx dp (n + 1) (d + 1)
+  end.
+
+Lemma copy_loop_spec cnt : forall s num dec_idx dp b l base n d,
   0 <= num + n -> num + n + Z.of_nat cnt <= Ln s + 1 ->
-  0 <= base + d ->
   base + d + cm n (Z.of_nat cnt) dec_idx + cins d dp (cm n (Z.of_nat cnt) dec_idx) <= Z.of_nat (length b) ->
-  pinit b (base + d) ->
+  pfx b (base + d) l ->
   exists b' d', copy_loop cnt s num dec_idx dp b base n d = JOk (b', d') /\
      d' = d + cm n (Z.of_nat cnt) dec_idx + cins d dp (cm n (Z.of_nat cnt) dec_idx) /\
-     length b' = length b /\ pinit b' (base + d').
+     length b' = length b /\ pfx b' (base + d') (l ++ copy_list cnt s num dec_idx dp n d).
 Proof.
-  induction cnt as [|cnt IH]; intros s num dec_idx dp b base n d Hn0 Hn1 Hb0 Hb1 Hp.
-  - cbn [copy_loop]. exists b, d. split; [reflexivity|]. split; [unfold cm, cins; lia|].
-    split; [reflexivity|exact Hp].
-  - cbn [copy_loop]. destruct (n =? dec_idx) eqn:Hnd.
-    + destruct (IH s num dec_idx dp b base (n + 1) d) as (b' & d' & He & Hd' & Hl & Hp');
-        [lia|lia|lia|unfold cm, cins in *; lia|exact Hp|].
+  induction cnt as [|cnt IH]; intros s num dec_idx dp b l base n d Hn0 Hn1 Hb1 Hp.
+  - cbn [copy_loop copy_list]. exists b, d. split; [reflexivity|]. split; [unfold cm, cins; lia|].
+    split; [reflexivity|]. rewrite app_nil_r. exact Hp.
+  - cbn [copy_loop copy_list]. destruct (n =? dec_idx) eqn:Hnd.
+    + destruct (IH s num dec_idx dp b l base (n + 1) d) as (b' & d' & He & Hd' & Hl & Hp');
+        [lia|lia|unfold cm, cins in *; lia|exact Hp|].
       exists b', d'. split; [exact He|]. split; [unfold cm, cins in *; lia|]. split; [exact Hl|exact Hp'].
     + rewrite rdin_ok by lia. cbn [jbind]. destruct (d =? dp) eqn:Hdp.
-      * destruct (wrb_step b (base + d) 46%N) as (b1 & He1 & Hl1 & Hp1);
+      * destruct (wrb_step b (base + d) l 46%N) as (b1 & He1 & Hl1 & Hp1);
           [unfold cm, cins in *; lia|exact Hp|].
         rewrite He1. cbn [jbind].
-        destruct (wrb_step b1 (base + d + 1) (bat s (num + n))) as (b2 & He2 & Hl2 & Hp2);
+        destruct (wrb_step b1 (base + d + 1) (l ++ [46%N]) (bat s (num + n))) as (b2 & He2 & Hl2 & Hp2);
           [unfold cm, cins in *; lia|exact Hp1|].
         rewrite He2. cbn [jbind].
-        destruct (IH s num dec_idx dp b2 base (n + 1) (d + 2)) as (b' & d' & He & Hd' & Hl & Hp');
-          [lia|lia|lia|unfold cm, cins in *; lia|
+        destruct (IH s num dec_idx dp b2 ((l ++ [46%N]) ++ [bat s (num + n)]) base (n + 1) (d + 2))
+          as (b' & d' & He & Hd' & Hl & Hp');
+          [lia|lia|unfold cm, cins in *; lia|
            replace (base + (d + 2)) with (base + d + 1 + 1) by lia; exact Hp2|].
-        exists b', d'. split; [exact He|]. split; [unfold cm, cins in *; lia|]. split; [congruence|exact Hp'].
-      * destruct (wrb_step b (base + d) (bat s (num + n))) as (b1 & He1 & Hl1 & Hp1);
+        exists b', d'. split; [exact He|]. split; [unfold cm, cins in *; lia|]. split; [congruence|].
+        rewrite <- !app_assoc in Hp'. exact Hp'.
+      * destruct (wrb_step b (base + d) l (bat s (num + n))) as (b1 & He1 & Hl1 & Hp1);
           [unfold cm, cins in *; lia|exact Hp|].
         rewrite He1. cbn [jbind].
-        destruct (IH s num dec_idx dp b1 base (n + 1) (d + 1)) as (b' & d' & He & Hd' & Hl & Hp');
-          [lia|lia|lia|unfold cm, cins in *; lia|
+        destruct (IH s num dec_idx dp b1 (l ++ [bat s (num + n)]) base (n + 1) (d + 1))
+          as (b' & d' & He & Hd' & Hl & Hp');
+          [lia|lia|unfold cm, cins in *; lia|
            replace (base + (d + 1)) with (base + d + 1) by lia; exact Hp1|].
-        exists b', d'. split; [exact He|]. split; [unfold cm, cins in *; lia|]. split; [congruence|exact Hp'].
+        exists b', d'. split; [exact He|]. split; [unfold cm, cins in *; lia|]. split; [congruence|].
+        rewrite <- !app_assoc in Hp'. exact Hp'.
 Qed.
 
 Definition decidx (dec_point : option Z) (num : Z) : Z :=
@@ -308,16 +416,17 @@ Definition decidx (dec_point : option Z) (num : Z) : Z :=
 
 (* lyjson_exp_number_copy_num_part: [m] source bytes are stored, [ins] is 1 when the new decimal point
    is inserted; neither assert fires, the stores are the cells base .. base + m + ins - 1 *)
-Lemma copy_num_part_step s num num_len dec_point dp b base m ins :
+Lemma copy_num_part_step s num num_len dec_point dp b l base m ins :
   0 <= num -> 0 <= num_len <= 65535 -> num + num_len <= Ln s + 1 ->
   (forall p, dec_point = Some p -> 0 <= p - num < 65536) ->
   decidx dec_point num <> dp ->
   m = cm 0 num_len (decidx dec_point num) -> ins = cins 0 dp m ->
-  0 <= base -> base + m + ins <= Z.of_nat (length b) -> pinit b base ->
+  base + m + ins <= Z.of_nat (length b) -> pfx b base l ->
   exists b', copy_num_part s num num_len dec_point dp b base = JOk (b', m + ins) /\
-    length b' = length b /\ pinit b' (base + (m + ins)).
+    length b' = length b /\
+    pfx b' (base + (m + ins)) (l ++ copy_list (Z.to_nat num_len) s num (decidx dec_point num) dp 0 0).
 Proof.
-  intros Hnum Hlen Hrd Hdec Hne Hm Hins Hb0 Hb1 Hp. unfold copy_num_part.
+  intros Hnum Hlen Hrd Hdec Hne Hm Hins Hb1 Hp. unfold copy_num_part.
   replace (match dec_point with Some p => i32 (p - num) | None => INT32_MAX end) with (decidx dec_point num).
   2:{ unfold decidx. destruct dec_point as [p|]; [|reflexivity].
       specialize (Hdec p eq_refl). rewrite i32_id by lia. reflexivity. }
@@ -325,9 +434,8 @@ Proof.
   { unfold decidx, INT32_MAX. destruct dec_point as [p|]; [specialize (Hdec p eq_refl)|]; lia. }
   replace ((0 <=? decidx dec_point num) && negb (decidx dec_point num =? dp)) with true by lia.
   cbn [negb]. rewrite u32_id by lia.
-  destruct (copy_loop_spec (Z.to_nat num_len) s num (decidx dec_point num) dp b base 0 0)
+  destruct (copy_loop_spec (Z.to_nat num_len) s num (decidx dec_point num) dp b l base 0 0)
     as (b' & d' & He & Hd' & Hl & Hp').
-  - lia.
   - lia.
   - lia.
   - rewrite Z2Nat.id by lia. rewrite <- Hm. rewrite <- Hins. lia.
@@ -338,28 +446,35 @@ Proof.
     split; [reflexivity|]. split; [exact Hl|exact Hp'].
 Qed.
 
-(* what the theorems say about the block lyjson_exp_number() hands back *)
-Definition xprops (x : expres) : Prop :=
-  Z.of_nat (length (x_buf x)) = x_len x + 1 /\ 0 <= x_len x < 22 /\
-  x_len x <= x_end x <= x_len x + 1 /\ (x_branch x <> 2%N -> x_end x = x_len x) /\
-  pinit (x_buf x) (x_len x).
+(* what the theorems say about the block lyjson_exp_number() hands back: it has buf_len + 1 bytes, the
+   bytes stored before the terminating NUL are exactly buf_len, and they are the text [out] with P out *)
+Definition xprops (P : bytes -> Prop) (x : expres) : Prop :=
+  Z.of_nat (length (x_buf x)) = x_len x + 1 /\ 0 <= x_len x < 22 /\ x_end x = x_len x /\
+  exists out, firstn (Z.to_nat (x_len x)) (x_buf x) = map Some out /\ P out.
 
-Definition xgood (r : jres expres) : Prop :=
-  match r with JOk x => xprops x | JErr e => e <> E_FUEL | JOob => False end.
+Definition xgood (P : bytes -> Prop) (r : jres expres) : Prop :=
+  match r with JOk x => xprops P x | JErr e => e <> E_FUEL | JOob => False end.
 
-Lemma finish_step b buf_len wend br :
-  Z.of_nat (length b) = buf_len + 1 -> 0 <= buf_len < 22 -> buf_len <= wend <= buf_len + 1 ->
-  (br <> 2%N -> wend = buf_len) -> pinit b wend ->
-  xgood (finish b buf_len wend br).
+Lemma xgood_impl (P Q : bytes -> Prop) r : (forall out, P out -> Q out) -> xgood P r -> xgood Q r.
 Proof.
-  intros Hl Hb Hw Hbr Hp. unfold finish, wrb.
-  replace ((0 <=? buf_len) && (buf_len <? Z.of_nat (length b))) with true by lia.
-  cbn [jbind xgood]. unfold xprops. cbn [x_buf x_len x_end x_branch].
-  split; [rewrite upd_length; exact Hl|]. split; [exact Hb|]. split; [exact Hw|]. split; [exact Hbr|].
-  apply pinit_upd_keep. apply (pinit_mono b wend); [lia|exact Hp].
+  intros HPQ. destruct r as [x|e|]; cbn [xgood]; auto.
+  intros (H1 & H2 & H3 & out & Ho & HP). split; [exact H1|]. split; [exact H2|]. split; [exact H3|].
+  exists out. split; [exact Ho|apply HPQ; exact HP].
 Qed.
 
-Lemma xgood_maxlen : xgood (JErr E_MAXLEN).
+Lemma finish_step (P : bytes -> Prop) b buf_len l br :
+  Z.of_nat (length b) = buf_len + 1 -> buf_len < 22 -> pfx b buf_len l -> P l ->
+  xgood P (finish b buf_len buf_len br).
+Proof.
+  intros Hl Hb (Hlen & Hp) HP. unfold finish, wrb.
+  replace ((0 <=? buf_len) && (buf_len <? Z.of_nat (length b))) with true by lia.
+  cbn [jbind xgood]. unfold xprops. cbn [x_buf x_len x_end x_branch].
+  split; [rewrite upd_length; exact Hl|]. split; [lia|]. split; [reflexivity|].
+  exists l. split; [|exact HP]. replace (Z.to_nat buf_len) with (length l) by lia.
+  rewrite firstn_upd_keep by lia. exact Hp.
+Qed.
+
+Lemma xgood_maxlen P : xgood P (JErr E_MAXLEN).
 Proof. cbn [xgood]. discriminate. Qed.
 
 (* ================= D. lex_number ================= *)
@@ -369,16 +484,18 @@ Definition exp_start (s : bytes) (ex : Z) : Z :=
 
 Definition lexfacts (s : bytes) (minus o1 o2 : Z) : Prop :=
   minus = (if (bat s 0 =? 45)%N then 1 else 0) /\ minus < o1 /\
-  is_digit (bat s minus) = true /\
+  (forall k, minus <= k < o1 -> is_digit (bat s k) = true) /\
   (bat s minus = 48%N -> o1 = minus + 1) /\
-  ((o2 = o1 /\ bat s o1 <> 46%N) \/ (bat s o1 = 46%N /\ o1 + 1 < o2)).
+  ((o2 = o1 /\ bat s o1 <> 46%N) \/
+   (bat s o1 = 46%N /\ o1 + 1 < o2 /\ forall k, o1 < k < o2 -> is_digit (bat s k) = true)).
 
 Definition lexok (s : bytes) (lx : lexed) : Prop :=
   lexfacts s (l_minus lx) (l_o1 lx) (l_o2 lx) /\ l_o2 lx <= l_off lx /\ l_off lx <= Ln s /\
   match l_exp lx with
-  | None => l_off lx = l_o2 lx
+  | None => l_off lx = l_o2 lx /\ bat s (l_o2 lx) <> 101%N /\ bat s (l_o2 lx) <> 69%N
   | Some ex => ex = l_o2 lx /\ (bat s ex = 101%N \/ bat s ex = 69%N) /\ exp_start s ex < l_off lx /\
-               forall k, exp_start s ex <= k < l_off lx -> is_digit (bat s k) = true
+               (forall k, exp_start s ex <= k < l_off lx -> is_digit (bat s k) = true) /\
+               is_digit (bat s (l_off lx)) = false
   end.
 
 Definition lgood (s : bytes) (r : jres lexed) : Prop :=
@@ -433,13 +550,14 @@ Proof.
     rewrite Hsk. cbn [jbind lgood]. unfold lexok. cbn [l_minus l_o1 l_o2 l_exp l_off].
     assert (Hne : o' <> exp_start s o2) by (intros ->; congruence).
     split; [exact Hf|]. split; [lia|]. split; [lia|]. split; [reflexivity|].
-    split; [lia|]. split; [lia|exact Hall].
+    split; [lia|]. split; [lia|]. split; [exact Hall|exact Hnd].
   - cbn [lgood]. unfold lexok. cbn [l_minus l_o1 l_o2 l_exp l_off].
-    split; [exact Hf|]. split; [lia|]. split; [lia|reflexivity].
+    split; [exact Hf|]. split; [lia|]. split; [lia|]. split; [reflexivity|lia].
 Qed.
 
 Lemma lex_rest1_spec s minus o1 :
-  minus = (if (bat s 0 =? 45)%N then 1 else 0) -> minus < o1 -> is_digit (bat s minus) = true ->
+  minus = (if (bat s 0 =? 45)%N then 1 else 0) -> minus < o1 ->
+  (forall k, minus <= k < o1 -> is_digit (bat s k) = true) ->
   (bat s minus = 48%N -> o1 = minus + 1) -> 0 <= o1 <= Ln s ->
   lgood s (lex_rest1 s minus o1).
 Proof.
@@ -453,7 +571,7 @@ Proof.
     assert (Hne : o2 <> o1 + 1) by (intros ->; congruence).
     apply lex_rest2_spec; [|lia]. unfold lexfacts.
     split; [exact Hm|]. split; [exact Hlt|]. split; [exact Hdm|]. split; [exact H48|].
-    right. split; [lia|lia].
+    right. split; [lia|]. split; [lia|]. intros k Hk. apply Hall. lia.
   - cbn [jbind]. apply lex_rest2_spec; [|lia]. unfold lexfacts.
     split; [exact Hm|]. split; [exact Hlt|]. split; [exact Hdm|]. split; [exact H48|].
     left. split; [reflexivity|lia].
@@ -469,12 +587,14 @@ Proof.
   rewrite rdin_ok by lia. cbn [jbind].
   destruct (bat s minus =? 48)%N eqn:H48.
   - cbn [jbind]. assert (Hl : minus < Ln s) by (apply bat_nz; lia).
-    apply lex_rest1_spec; [reflexivity|lia|unfold is_digit; lia|lia|lia].
+    apply lex_rest1_spec; [reflexivity|lia| |lia|lia].
+    intros k Hk. replace k with minus by lia. unfold is_digit. lia.
   - destruct (is_digit (bat s minus)) eqn:Hd; [|cbn [jbind lgood]; discriminate].
     assert (Hl : minus < Ln s) by (apply bat_nz; [lia|apply digit_nz; exact Hd]).
     destruct (skip_digits_spec (S (length s)) s (minus + 1)) as (o1 & Hsk & Hr & Hall & Hnd); [lia|lia|].
     rewrite Hsk. cbn [jbind].
-    apply lex_rest1_spec; [reflexivity|lia|exact Hd|lia|lia].
+    apply lex_rest1_spec; [reflexivity|lia| |lia|lia].
+    intros k Hk. destruct (Z.eq_dec k minus) as [->|Hne]; [exact Hd|]. apply Hall. lia.
 Qed.
 
 (* ================= E. lyjson_number_is_zero ================= *)
@@ -484,20 +604,27 @@ Definition nz_start (s : bytes) (i : Z) : Z :=
 Lemma nz_tail s i2 e :
   Ln s < 4294967296 -> 0 <= i2 -> i2 < e -> e <= Ln s ->
   exists z, (let* k := count_in_row s i2 e 48%N false in JOk (k =? u32 (e - i2))) = JOk z /\
-    (z = false -> exists k, i2 <= k < e /\ bat s k <> 48%N).
+    (z = false -> exists k, i2 <= k < e /\ bat s k <> 48%N) /\
+    (z = true -> forall j, i2 <= j < e -> bat s j = 48%N).
 Proof.
   intros HL H0 Hlt He.
   destruct (count_in_row_fwd s i2 e 48%N HL H0 He) as (k & Hk & Hr & Hall & Hstop).
-  rewrite Hk. cbn [jbind]. rewrite u32_id by lia. eexists. split; [reflexivity|].
-  intro Hz. exists (i2 + k). split; [lia|]. apply Hstop. lia.
+  rewrite Hk. cbn [jbind]. rewrite u32_id by lia. eexists. split; [reflexivity|]. split.
+  - intro Hz. exists (i2 + k). split; [lia|]. apply Hstop. lia.
+  - intros Hz j Hj. apply Hall. lia.
 Qed.
 
-(* no assert fires, no read leaves the text; when the answer is false some byte between the (signed)
-   start and the end is not the digit 0 *)
+(* no assert fires, no read leaves the text. Answer false: some byte between the (signed) start and the
+   end is not the digit 0 (behind the point when the text starts with 0.). Answer true: all of them are,
+   or the text is 0. and the end *)
 Lemma number_is_zero_spec s i e :
   Ln s < 4294967296 -> 0 <= i -> i < e -> e <= Ln s -> nz_start s i < e ->
   exists z, number_is_zero s i e = JOk z /\
-    (z = false -> exists k, nz_start s i <= k < e /\ bat s k <> 48%N).
+    (z = false -> exists k, nz_start s i <= k < e /\ bat s k <> 48%N /\
+                  (bat s (nz_start s i) = 48%N -> bat s (nz_start s i + 1) = 46%N -> nz_start s i + 2 <= k)) /\
+    (z = true -> bat s (nz_start s i) = 48%N /\
+                 ((bat s (nz_start s i + 1) = 46%N /\ forall j, nz_start s i + 2 <= j < e -> bat s j = 48%N) \/
+                  (bat s (nz_start s i + 1) <> 46%N /\ forall j, nz_start s i <= j < e -> bat s j = 48%N))).
 Proof.
   intros HL H0 Hlt He Hst. unfold number_is_zero.
   replace (negb (i <? e)) with false by lia.
@@ -513,705 +640,206 @@ Proof.
   destruct (bat s i1 =? 48)%N eqn:H48.
   - rewrite rdin_ok by lia. cbn [jbind]. destruct (bat s (i1 + 1) =? 46)%N eqn:H46.
     + cbn [andb]. destruct (negb (i1 + 2 <? e)) eqn:Hc.
-      * exists true. split; [reflexivity|discriminate].
-      * destruct (nz_tail s (i1 + 2) e) as (z & Hz & Hk); [lia|lia|lia|lia|].
-        exists z. split; [exact Hz|]. intro Hf. destruct (Hk Hf) as (k & Hkr & Hkn).
-        exists k. split; [lia|exact Hkn].
-    + cbn [andb]. destruct (nz_tail s i1 e) as (z & Hz & Hk); [lia|lia|lia|lia|].
-      exists z. split; [exact Hz|exact Hk].
-  - cbn [jbind andb]. destruct (nz_tail s i1 e) as (z & Hz & Hk); [lia|lia|lia|lia|].
-    exists z. split; [exact Hz|exact Hk].
+      * exists true. split; [reflexivity|]. split; [discriminate|]. intros _. split; [lia|].
+        left. split; [lia|]. intros j Hj. lia.
+      * destruct (nz_tail s (i1 + 2) e) as (z & Hz & Hk & Hall); [lia|lia|lia|lia|].
+        exists z. split; [exact Hz|]. split.
+        -- intro Hf. destruct (Hk Hf) as (k & Hkr & Hkn).
+           exists k. split; [lia|]. split; [exact Hkn|]. intros _ _. lia.
+        -- intro Ht. split; [lia|]. left. split; [lia|apply Hall; exact Ht].
+    + cbn [andb]. destruct (nz_tail s i1 e) as (z & Hz & Hk & Hall); [lia|lia|lia|lia|].
+      exists z. split; [exact Hz|]. split.
+      * intro Hf. destruct (Hk Hf) as (k & Hkr & Hkn).
+        exists k. split; [lia|]. split; [exact Hkn|]. intros _ Hc. lia.
+      * intro Ht. split; [lia|]. right. split; [lia|apply Hall; exact Ht].
+  - cbn [jbind andb]. destruct (nz_tail s i1 e) as (z & Hz & Hk & Hall); [lia|lia|lia|lia|].
+    exists z. split; [exact Hz|]. split.
+    + intro Hf. destruct (Hk Hf) as (k & Hkr & Hkn).
+      exists k. split; [lia|]. split; [exact Hkn|]. intros Hc. lia.
+    + intro Ht. exfalso. specialize (Hall Ht i1). lia.
 Qed.
 
-(* ================= F. lyjson_exp_number ================= *)
-(* the five layouts, cut out of exp_number word for word (exp_number_eq is by reflexivity) *)
-Definition br1 (s : bytes) (minus num num_len : Z) (dec_point : option Z) (dp dot : Z) : jres expres :=
-    let zeros := Z.abs dp in
-    let buf_len := u64 (minus + 1 + dot + zeros + num_len) in
-    let* b := get_buffer buf_len in
-    let* (b, i) := maybe_minus b minus in
-    let* b := wrb b i 48%N in
-    let* b := wrb b (i + 1) 46%N in
-    let* b := fillb b (i + 2) (u64 zeros) 48%N in
-    let i := u32 (i + 2 + zeros) in
-    let* (b, d) := copy_num_part s num num_len dec_point (-1) b i in
-    finish b buf_len (i + d) 1.
+(* ================= S. what a decimal text denotes ================= *)
+Lemma digits_val_dval l : forall acc, Forall isd l -> digits_val l acc = Some (dval l acc).
+Proof.
+  induction l as [|c l IH]; intros acc H; [reflexivity|].
+  inversion H as [|c' l' Hc Hl]; subst c' l'. cbn [digits_val dval]. unfold isd in Hc. rewrite Hc. apply IH. exact Hl.
+Qed.
 
-Definition br2 (s : bytes) (minus num num_len dp : Z) : jres expres :=
-    let num := num + 1 in
-    let num_len := u16 (num_len - 1) in
-    let dp := i32 (dp - 1) in
-    let* zeros := count_in_row s num (num + dp + 1) 48%N false in
-    let allz := zeros =? dp + 1 in
-    let zeros := if allz then zeros - 1 else zeros in
-    let dp := if allz then 1 else dp in
-    let dot := if allz then 1 else 0 in
-    let buf_len := u64 (minus + dot + (num_len - zeros)) in
-    let* b := get_buffer buf_len in
-    let* (b, i) := maybe_minus b minus in
-    let* (b, d) := copy_num_part s (num + zeros) (num_len - zeros) None dp b i in
-    finish b buf_len (i + d) 2.
+Lemma dval_app a : forall b acc, dval (a ++ b) acc = dval b (dval a acc).
+Proof. induction a as [|c a IH]; intros b acc; cbn [app dval]; [reflexivity|apply IH]. Qed.
 
-Definition br3 (s : bytes) (minus num num_len : Z) (dec_point : option Z) (dp dot : Z) : jres expres :=
-    let buf_len := u64 (minus + dot + num_len) in
-    let* b := get_buffer buf_len in
-    let* (b, i) := maybe_minus b minus in
-    let* (b, d) := copy_num_part s num num_len dec_point dp b i in
-    finish b buf_len (i + d) 3.
+Lemma dval_acc l : forall acc, dval l acc = acc * 10 ^ Ln l + dval l 0.
+Proof.
+  induction l as [|c l IH]; intro acc.
+  - cbn [dval length]. change (10 ^ Z.of_nat 0) with 1. lia.
+  - cbn [dval]. rewrite (IH (10 * acc + (Z.of_N c - 48))), (IH (10 * 0 + (Z.of_N c - 48))).
+    cbn [length]. rewrite Nat2Z.inj_succ, Z.pow_succ_r by lia. ring.
+Qed.
 
-Definition br4 (s : bytes) (minus num num_len dp : Z) : jres expres :=
-    let num := num + 1 in
-    let num_len := u16 (num_len - 1) in
-    let* zeros := count_in_row s num (num + num_len) 48%N false in
-    let buf_len := u64 (minus + dp - zeros) in
-    let* b := get_buffer buf_len in
-    let* (b, i) := maybe_minus b minus in
-    let* (b, d) := copy_num_part s (num + zeros) (num_len - zeros) None dp b i in
-    let i := u32 (i + d) in
-    let* b := fillb b i (u64 (buf_len - i)) 48%N in
-    finish b buf_len (i + u64 (buf_len - i)) 4.
+Lemma dval_repeat0 n : forall acc, dval (repeat 48%N n) acc = acc * 10 ^ Z.of_nat n.
+Proof.
+  induction n as [|n IH]; intro acc.
+  - cbn [repeat dval]. change (10 ^ Z.of_nat 0) with 1. lia.
+  - cbn [repeat dval]. rewrite IH. rewrite Nat2Z.inj_succ, Z.pow_succ_r by lia.
+    change (Z.of_N 48 - 48) with 0. ring.
+Qed.
 
-Definition br5 (s : bytes) (minus num num_len : Z) (dec_point : option Z) (dp : Z) : jres expres :=
-    let buf_len := u64 (minus + dp) in
-    let* b := get_buffer buf_len in
-    let* (b, i) := maybe_minus b minus in
-    let* (b, d) := copy_num_part s num num_len dec_point dp b i in
-    let i := u32 (i + d) in
-    let* b := fillb b i (u64 (buf_len - i)) 48%N in
-    finish b buf_len (i + u64 (buf_len - i)) 5.
+Lemma dval_zeros_l n l : dval (repeat 48%N n ++ l) 0 = dval l 0.
+Proof. rewrite dval_app, dval_repeat0. reflexivity. Qed.
 
-Definition xdot (dec_point : option Z) (num_len dp : Z) : Z :=
-  match dec_point with
-  | Some _ => if i32 (num_len - 1) =? dp then -1 else 0
-  | None => 1
+Lemma split_at_none c A : Forall (fun x => x <> c) A -> split_at c A = (A, None).
+Proof.
+  induction A as [|x A IH]; intro H; [reflexivity|].
+  inversion H as [|x' A' Hx HA]; subst x' A'. cbn [split_at].
+  replace (x =? c)%N with false by lia. rewrite (IH HA). reflexivity.
+Qed.
+
+Lemma split_at_some c A B : Forall (fun x => x <> c) A -> split_at c (A ++ c :: B) = (A, Some B).
+Proof.
+  induction A as [|x A IH]; intro H.
+  - cbn [app split_at]. rewrite N.eqb_refl. reflexivity.
+  - inversion H as [|x' A' Hx HA]; subst x' A'. cbn [app split_at].
+    replace (x =? c)%N with false by lia. rewrite (IH HA). reflexivity.
+Qed.
+
+Lemma isd_ne c x : isd x -> (c < 48 \/ 57 < c)%N -> x <> c.
+Proof. unfold isd, is_digit. lia. Qed.
+
+Lemma Forall_isd_ne c l : (c < 48 \/ 57 < c)%N -> Forall isd l -> Forall (fun x => x <> c) l.
+Proof. intros Hc H. eapply Forall_impl; [|exact H]. intros x Hx. apply isd_ne; assumption. Qed.
+
+Definition sgz (minus x : Z) : Z := if minus =? 1 then - x else x.
+
+Definition sign_split (s : bytes) : bool * bytes :=
+  match s with
+  | c :: r => if (c =? 45)%N then (true, r) else (false, s)
+  | [] => (false, s)
   end.
 
-Definition xlayout (s : bytes) (ex minus : Z) (lz : bool) (num num_len0 : Z) (dec_point : option Z) (dp cnt : Z)
-  : jres expres :=
-  let num_len := u16 (num_len0 - cnt) in
-  let dot := xdot dec_point num_len dp in
-  if dp <=? 0 then br1 s minus num num_len dec_point dp dot
-  else if lz && (dp <? num_len) then br2 s minus num num_len dp
-  else if dp <? num_len then br3 s minus num num_len dec_point dp dot
-  else if lz then br4 s minus num num_len dp
-  else br5 s minus num num_len dec_point dp.
-
-Definition xmid (s : bytes) (ex minus : Z) (lz : bool) (e_val : Z) : jres expres :=
-  let num := if lz then minus + 1 else minus in
-  let num_len := u16 (ex - num) in
-  let* dec_point := strnchr (Z.to_nat num_len) s num 46%N in
-  let dp := i32 (match dec_point with Some p => p - num + e_val | None => num_len + e_val end) in
-  let* cnt := if 0 <? dp then count_in_row s (num + dp - 1) ex 48%N true
-              else count_in_row s num ex 48%N true in
-  xlayout s ex minus lz num num_len dec_point dp cnt.
-
-Lemma exp_number_eq s ex total_len :
-  exp_number s ex total_len =
-  if negb (2 <? total_len) then JOob else
-  let* ce := rdin s ex in
-  if negb ((0 <? ex) && ((ce =? 101)%N || (ce =? 69)%N)) then JOob else
-  if UINT16_MAX <? ex then JErr E_LONG else
-  let* (e_val, errno) := strtoll s (ex + 1) in
-  if errno || (UINT16_MAX <? e_val) || (e_val <? - UINT16_MAX) then JErr E_EXP else
-  let* c0 := rdin s 0 in
-  let minus := if (c0 =? 45)%N then 1 else 0 in
-  let* cm := rdin s minus in
-  let* lz := if (cm =? 48)%N
-             then (let* c1 := rdin s (minus + 1) in if (c1 =? 46)%N then JOk true else JOob)
-             else JOk false in
-  xmid s ex minus lz e_val.
-Proof. reflexivity. Qed.
-
-(* layout 1: 0.000ddd *)
-Lemma br1_good s minus num num_len dec_point dp dot :
-  minus = 0 \/ minus = 1 -> 0 <= num -> 1 <= num_len <= 65535 -> num + num_len <= Ln s + 1 ->
-  -131070 <= dp <= 0 ->
-  match dec_point with Some p => 0 <= p - num < num_len /\ dot = 0 | None => dot = 1 end ->
-  xgood (br1 s minus num num_len dec_point dp dot).
+Lemma dec_sign_eq s : (match s with 45%N :: r => (true, r) | _ => (false, s) end) = sign_split s.
 Proof.
-  intros Hm Hnum Hlen Hrd Hdp Hdec. unfold br1. cbv zeta.
-  assert (Hdot : 0 <= dot <= 1) by (destruct dec_point; lia).
-  rewrite (u64_id (minus + 1 + dot + Z.abs dp + num_len)) by lia.
-  remember (minus + 1 + dot + Z.abs dp + num_len) as buf_len eqn:Hbl.
-  destruct (get_buffer_cases buf_len) as [Hg | (Hle & b0 & Hg & Hl0 & Hp0)];
-    [lia|rewrite Hg; exact xgood_maxlen|].
-  rewrite Hg. cbn [jbind].
-  destruct (maybe_minus_step b0 minus Hm) as (b1 & He1 & Hl1 & Hp1); [lia|].
-  rewrite He1. cbn [jbind].
-  destruct (wrb_step b1 minus 48%N) as (b2 & He2 & Hl2 & Hp2); [lia|exact Hp1|].
-  rewrite He2. cbn [jbind].
-  destruct (wrb_step b2 (minus + 1) 46%N) as (b3 & He3 & Hl3 & Hp3); [lia|exact Hp2|].
-  rewrite He3. cbn [jbind].
-  rewrite (u64_id (Z.abs dp)) by lia.
-  destruct (fillb_step b3 (minus + 2) (Z.abs dp) 48%N) as (b4 & He4 & Hl4 & Hp4);
-    [lia|lia|lia|replace (minus + 2) with (minus + 1 + 1) by lia; exact Hp3|].
-  rewrite He4. cbn [jbind].
-  rewrite (u32_id (minus + 2 + Z.abs dp)) by lia.
-  destruct (copy_num_part_step s num num_len dec_point (-1) b4 (minus + 2 + Z.abs dp) (num_len - 1 + dot) 0)
-    as (b5 & He5 & Hl5 & Hp5).
-  - exact Hnum.
-  - lia.
-  - exact Hrd.
-  - intros p Hpe. rewrite Hpe in Hdec. lia.
-  - unfold decidx, INT32_MAX. destruct dec_point; lia.
-  - unfold cm, decidx, INT32_MAX. destruct dec_point; lia.
-  - unfold cins. lia.
-  - lia.
-  - lia.
-  - exact Hp4.
-  - rewrite He5. cbn [jbind].
-    apply finish_step; [lia|lia|lia|lia|exact Hp5].
+  destruct s as [|c r]; [reflexivity|]. unfold sign_split.
+  destruct c as [|p]; [reflexivity|].
+  do 6 (destruct p as [p|p|]; try reflexivity).
 Qed.
 
-(* layout 3: the decimal point moves inside the digits (no leading 0.) *)
-Lemma br3_good s minus num num_len dec_point dp dot :
-  minus = 0 \/ minus = 1 -> 0 <= num -> num_len <= 65535 -> num + num_len <= Ln s + 1 ->
-  0 < dp < num_len ->
-  match dec_point with
-  | Some p => 0 <= p - num < num_len /\ p - num <> dp /\
-              ((num_len - 1 = dp /\ dot = -1) \/ (num_len - 1 <> dp /\ dot = 0))
-  | None => dot = 1
-  end ->
-  xgood (br3 s minus num num_len dec_point dp dot).
+Lemma sign_split_sgnl minus A :
+  minus = 0 \/ minus = 1 -> A <> [] -> Forall isd A -> sign_split (sgnl minus ++ A) = (minus =? 1, A).
 Proof.
-  intros Hm Hnum Hlen Hrd Hdp Hdec. unfold br3. cbv zeta.
-  assert (Hdot : -1 <= dot <= 1) by (destruct dec_point; lia).
-  rewrite (u64_id (minus + dot + num_len)) by lia.
-  remember (minus + dot + num_len) as buf_len eqn:Hbl.
-  destruct (get_buffer_cases buf_len) as [Hg | (Hle & b0 & Hg & Hl0 & Hp0)];
-    [lia|rewrite Hg; exact xgood_maxlen|].
-  rewrite Hg. cbn [jbind].
-  destruct (maybe_minus_step b0 minus Hm) as (b1 & He1 & Hl1 & Hp1); [lia|].
-  rewrite He1. cbn [jbind].
-  pose (sd := match dec_point with Some _ => 1 | None => 0 end).
-  destruct (copy_num_part_step s num num_len dec_point dp b1 minus (num_len - sd) (dot + sd))
-    as (b5 & He5 & Hl5 & Hp5).
-  - exact Hnum.
-  - lia.
-  - exact Hrd.
-  - intros p Hpe. rewrite Hpe in Hdec. lia.
-  - unfold decidx, INT32_MAX. destruct dec_point; lia.
-  - unfold cm, decidx, INT32_MAX. subst sd. destruct dec_point; lia.
-  - unfold cins. subst sd. destruct dec_point; lia.
-  - lia.
-  - subst sd. destruct dec_point; lia.
-  - exact Hp1.
-  - rewrite He5. cbn [jbind].
-    apply finish_step; [lia|lia|subst sd; destruct dec_point; lia|subst sd; destruct dec_point; lia|exact Hp5].
+  intros [-> | ->] Hne HA; [|reflexivity]. cbn [sgnl Z.eqb app].
+  destruct A as [|c A]; [contradiction|]. inversion HA as [|c' A' Hc HA']; subst c' A'.
+  unfold sign_split. replace (c =? 45)%N with false; [reflexivity|]. unfold isd, is_digit in Hc. lia.
 Qed.
 
-(* layout 5: ddd or d.dd becomes an integer *)
-Lemma br5_good s minus num num_len dec_point dp :
-  minus = 0 \/ minus = 1 -> 0 <= num -> 0 <= num_len <= 65535 -> num + num_len <= Ln s + 1 ->
-  0 < dp <= 131070 -> num_len <= dp ->
-  match dec_point with
-  | Some p => 0 <= p - num < num_len /\ p - num <> dp
-  | None => True
-  end ->
-  xgood (br5 s minus num num_len dec_point dp).
+Lemma dec_denote_int minus A :
+  minus = 0 \/ minus = 1 -> A <> [] -> Forall isd A ->
+  dec_denote (sgnl minus ++ A) = Some (sgz minus (dval A 0), 0).
 Proof.
-  intros Hm Hnum Hlen Hrd Hdp Hge Hdec. unfold br5. cbv zeta.
-  rewrite (u64_id (minus + dp)) by lia.
-  remember (minus + dp) as buf_len eqn:Hbl.
-  destruct (get_buffer_cases buf_len) as [Hg | (Hle & b0 & Hg & Hl0 & Hp0)];
-    [lia|rewrite Hg; exact xgood_maxlen|].
-  rewrite Hg. cbn [jbind].
-  destruct (maybe_minus_step b0 minus Hm) as (b1 & He1 & Hl1 & Hp1); [lia|].
-  rewrite He1. cbn [jbind].
-  pose (sd := match dec_point with Some _ => 1 | None => 0 end).
-  destruct (copy_num_part_step s num num_len dec_point dp b1 minus (num_len - sd) 0)
-    as (b5 & He5 & Hl5 & Hp5).
-  - exact Hnum.
-  - lia.
-  - exact Hrd.
-  - intros p Hpe. rewrite Hpe in Hdec. lia.
-  - unfold decidx, INT32_MAX. destruct dec_point; lia.
-  - unfold cm, decidx, INT32_MAX. subst sd. destruct dec_point; lia.
-  - unfold cins. subst sd. destruct dec_point; lia.
-  - lia.
-  - subst sd. destruct dec_point; lia.
-  - exact Hp1.
-  - rewrite He5. cbn [jbind].
-    assert (Hsd : 0 <= sd <= 1 /\ sd <= num_len) by (subst sd; destruct dec_point; lia).
-    clearbody sd.
-    rewrite (u32_id (minus + (num_len - sd + 0))) by lia.
-    rewrite (u64_id (buf_len - (minus + (num_len - sd + 0)))) by lia.
-    destruct (fillb_step b5 (minus + (num_len - sd + 0)) (buf_len - (minus + (num_len - sd + 0))) 48%N)
-      as (b6 & He6 & Hl6 & Hp6); [lia|lia|lia|exact Hp5|].
-    rewrite He6. cbn [jbind].
-    apply finish_step; [lia|lia|lia|lia|exact Hp6].
+  intros Hm Hne HA. unfold dec_denote. rewrite dec_sign_eq, (sign_split_sgnl minus A Hm Hne HA).
+  rewrite (split_at_none 46%N A) by (apply Forall_isd_ne; [lia|exact HA]).
+  destruct A as [|c A]; [contradiction|]. rewrite app_nil_r.
+  rewrite (digits_val_dval _ 0 HA). reflexivity.
 Qed.
 
-(* layout 4: 0.ddd becomes an integer *)
-Lemma br4_good s minus num num_len dp :
-  Ln s < 4294967296 ->
-  minus = 0 \/ minus = 1 -> 0 <= num -> 1 <= num_len <= 65535 -> num + num_len <= Ln s ->
-  0 < dp <= 131070 -> num_len <= dp ->
-  xgood (br4 s minus num num_len dp).
+Lemma dec_denote_frac minus A B :
+  minus = 0 \/ minus = 1 -> A <> [] -> B <> [] -> Forall isd A -> Forall isd B ->
+  dec_denote (sgnl minus ++ A ++ 46%N :: B) = Some (sgz minus (dval (A ++ B) 0), - Ln B).
 Proof.
-  intros HL Hm Hnum Hlen Hrd Hdp Hge. unfold br4. cbv zeta.
-  rewrite (u16_id (num_len - 1)) by lia.
-  destruct (count_in_row_fwd s (num + 1) (num + 1 + (num_len - 1)) 48%N HL) as (zeros & Hz & Hzr & _ & _);
-    [lia|lia|].
-  rewrite Hz. cbn [jbind].
-  rewrite (u64_id (minus + dp - zeros)) by lia.
-  remember (minus + dp - zeros) as buf_len eqn:Hbl.
-  destruct (get_buffer_cases buf_len) as [Hg | (Hle & b0 & Hg & Hl0 & Hp0)];
-    [lia|rewrite Hg; exact xgood_maxlen|].
-  rewrite Hg. cbn [jbind].
-  destruct (maybe_minus_step b0 minus Hm) as (b1 & He1 & Hl1 & Hp1); [lia|].
-  rewrite He1. cbn [jbind].
-  destruct (copy_num_part_step s (num + 1 + zeros) (num_len - 1 - zeros) None dp b1 minus (num_len - 1 - zeros) 0)
-    as (b5 & He5 & Hl5 & Hp5).
-  - lia.
-  - lia.
-  - lia.
-  - intros p Hpe. discriminate.
-  - unfold decidx, INT32_MAX. lia.
-  - unfold cm, decidx, INT32_MAX. lia.
-  - unfold cins. lia.
-  - lia.
-  - lia.
-  - exact Hp1.
-  - rewrite He5. cbn [jbind].
-    rewrite (u32_id (minus + (num_len - 1 - zeros + 0))) by lia.
-    rewrite (u64_id (buf_len - (minus + (num_len - 1 - zeros + 0)))) by lia.
-    destruct (fillb_step b5 (minus + (num_len - 1 - zeros + 0))
-                (buf_len - (minus + (num_len - 1 - zeros + 0))) 48%N)
-      as (b6 & He6 & Hl6 & Hp6); [lia|lia|lia|exact Hp5|].
-    rewrite He6. cbn [jbind].
-    apply finish_step; [lia|lia|lia|lia|exact Hp6].
+  intros Hm HneA HneB HA HB. unfold dec_denote.
+  assert (Hsp : sign_split (sgnl minus ++ A ++ 46%N :: B) = (minus =? 1, A ++ 46%N :: B)).
+  { destruct Hm as [-> | ->]; [|reflexivity]. cbn [sgnl Z.eqb app].
+    destruct A as [|c A]; [contradiction|]. inversion HA as [|c' A' Hc HA']; subst c' A'.
+    unfold sign_split. cbn [app]. replace (c =? 45)%N with false; [reflexivity|].
+    unfold isd, is_digit in Hc. lia. }
+  rewrite dec_sign_eq, Hsp.
+  rewrite (split_at_some 46%N A B) by (apply Forall_isd_ne; [lia|exact HA]).
+  destruct A as [|c A]; [contradiction|]. destruct B as [|d B]; [contradiction|].
+  rewrite (digits_val_dval _ 0) by (apply Forall_app; split; assumption). reflexivity.
 Qed.
 
-(* layout 2: 0.ddd with the new decimal point inside the digits. The byte count is NOT exact here (the
-   defect): one byte more than buf_len may be stored, still inside the block of buf_len + 1 bytes.
-   The lower bound needs that the last digit left after stripping is not 0. *)
-Lemma br2_good s minus num num_len dp :
-  Ln s < 4294967296 ->
-  minus = 0 \/ minus = 1 -> 0 <= num -> num_len <= 65535 -> num + num_len <= Ln s ->
-  0 < dp < num_len -> bat s (num + num_len - 1) <> 48%N ->
-  xgood (br2 s minus num num_len dp).
-Proof.
-  intros HL Hm Hnum Hlen Hrd Hdp Hlast. unfold br2. cbv zeta.
-  rewrite (u16_id (num_len - 1)) by lia. rewrite (i32_id (dp - 1)) by lia.
-  destruct (count_in_row_fwd s (num + 1) (num + 1 + (dp - 1) + 1) 48%N HL) as (zeros & Hz & Hzr & Hzall & _);
-    [lia|lia|].
-  rewrite Hz. cbn [jbind].
-  destruct (zeros =? dp - 1 + 1) eqn:Hallz.
-  - (* only zeros up to the new decimal point: one of them is kept *)
-    assert (Hbig : dp < num_len - 1).
-    { destruct (Z_lt_ge_dec dp (num_len - 1)) as [Hlt|Hge]; [exact Hlt|]. exfalso. apply Hlast.
-      apply Hzall. lia. }
-    rewrite (u64_id (minus + 1 + (num_len - 1 - (zeros - 1)))) by lia.
-    remember (minus + 1 + (num_len - 1 - (zeros - 1))) as buf_len eqn:Hbl.
-    destruct (get_buffer_cases buf_len) as [Hg | (Hle & b0 & Hg & Hl0 & Hp0)];
-      [lia|rewrite Hg; exact xgood_maxlen|].
-    rewrite Hg. cbn [jbind].
-    destruct (maybe_minus_step b0 minus Hm) as (b1 & He1 & Hl1 & Hp1); [lia|].
-    rewrite He1. cbn [jbind].
-    destruct (copy_num_part_step s (num + 1 + (zeros - 1)) (num_len - 1 - (zeros - 1)) None 1 b1 minus
-                (num_len - 1 - (zeros - 1)) 1) as (b5 & He5 & Hl5 & Hp5).
-    + lia.
-    + lia.
-    + lia.
-    + intros p Hpe. discriminate.
-    + unfold decidx, INT32_MAX. lia.
-    + unfold cm, decidx, INT32_MAX. lia.
-    + unfold cins. lia.
-    + lia.
-    + lia.
-    + exact Hp1.
-    + rewrite He5. cbn [jbind].
-      apply finish_step; [lia|lia|lia|lia|exact Hp5].
-  - rewrite (u64_id (minus + 0 + (num_len - 1 - zeros))) by lia.
-    remember (minus + 0 + (num_len - 1 - zeros)) as buf_len eqn:Hbl.
-    destruct (get_buffer_cases buf_len) as [Hg | (Hle & b0 & Hg & Hl0 & Hp0)];
-      [lia|rewrite Hg; exact xgood_maxlen|].
-    rewrite Hg. cbn [jbind].
-    destruct (maybe_minus_step b0 minus Hm) as (b1 & He1 & Hl1 & Hp1); [lia|].
-    rewrite He1. cbn [jbind].
-    destruct (copy_num_part_step s (num + 1 + zeros) (num_len - 1 - zeros) None (dp - 1) b1 minus
-                (num_len - 1 - zeros) (cins 0 (dp - 1) (num_len - 1 - zeros))) as (b5 & He5 & Hl5 & Hp5).
-    + lia.
-    + lia.
-    + lia.
-    + intros p Hpe. discriminate.
-    + unfold decidx, INT32_MAX. lia.
-    + unfold cm, decidx, INT32_MAX. lia.
-    + reflexivity.
-    + lia.
-    + unfold cins. lia.
-    + exact Hp1.
-    + rewrite He5. cbn [jbind].
-      apply finish_step; [lia|lia|unfold cins; lia|intro Hbr; exfalso; apply Hbr; reflexivity|exact Hp5].
-Qed.
-
-(* the choice of the layout after the useless zeros were counted *)
-Lemma xlayout_good s ex minus (lz : bool) num e_val (dec_point : option Z) dp cnt :
-  Ln s < 4294967296 -> minus = 0 \/ minus = 1 ->
-  num = (if lz then minus + 1 else minus) ->
-  num < ex -> ex <= 65535 -> ex <= Ln s ->
-  (if lz then bat s num = 46%N /\ dec_point = Some num else bat s num <> 48%N) ->
-  (forall p, dec_point = Some p -> num <= p < ex /\ bat s p = 46%N) ->
-  e_val <> 0 -> -65535 <= e_val <= 65535 ->
-  dp = match dec_point with Some p => p - num + e_val | None => (ex - num) + e_val end ->
-  0 <= cnt <= Z.max 0 (ex - (if 0 <? dp then num + dp - 1 else num)) ->
-  (forall j, ex - cnt <= j < ex -> bat s j = 48%N) ->
-  (cnt < ex - (if 0 <? dp then num + dp - 1 else num) -> bat s (ex - 1 - cnt) <> 48%N) ->
-  xgood (xlayout s ex minus lz num (ex - num) dec_point dp cnt).
-Proof.
-  intros HL Hm Hnum Hlt Hex HexL Hlz Hdec He0 Her Hdp Hcnt Hcall Hcstop.
-  assert (Hnum0 : 0 <= num) by (destruct lz; lia).
-  assert (Hcle : cnt <= ex - num) by (destruct (0 <? dp) eqn:Hd; lia).
-  assert (Hdpr : -131070 <= dp <= 131070).
-  { destruct dec_point as [p|]; [destruct (Hdec p eq_refl) as (Hp & _)|]; lia. }
-  unfold xlayout. cbv zeta. rewrite (u16_id (ex - num - cnt)) by lia.
-  remember (ex - num - cnt) as num_len eqn:Hnl.
-  assert (Hdecr : forall p, dec_point = Some p -> 0 <= p - num < num_len).
-  { intros p Hpe. destruct (Hdec p Hpe) as (Hp & H46). split; [lia|].
-    destruct (Z_lt_ge_dec p (ex - cnt)) as [Hl|Hg]; [lia|]. exfalso.
-    rewrite (Hcall p) in H46 by lia. discriminate. }
-  assert (Hdot : match dec_point with
-                 | Some _ => (num_len - 1 = dp /\ xdot dec_point num_len dp = -1) \/
-                             (num_len - 1 <> dp /\ xdot dec_point num_len dp = 0)
-                 | None => xdot dec_point num_len dp = 1
-                 end).
-  { unfold xdot. destruct dec_point as [p|]; [|reflexivity]. rewrite i32_id by lia.
-    destruct (num_len - 1 =? dp) eqn:Hq; [left|right]; split; lia. }
-  remember (xdot dec_point num_len dp) as dot eqn:Hdoteq. clear Hdoteq.
-  destruct (dp <=? 0) eqn:Hdp0.
-  - (* layout 1 *)
-    replace (0 <? dp) with false in * by lia.
-    assert (Hnl1 : 1 <= num_len).
-    { destruct (Z_lt_ge_dec cnt (ex - num)) as [Hl|Hg]; [lia|]. exfalso.
-      assert (H48 : bat s num = 48%N) by (apply Hcall; lia).
-      destruct lz; [destruct Hlz as (H46 & _); rewrite H48 in H46; discriminate|contradiction]. }
-    apply br1_good; [exact Hm|exact Hnum0|lia|lia|lia|].
-    destruct dec_point as [p|]; [|exact Hdot]. specialize (Hdecr p eq_refl). split; [exact Hdecr|]. lia.
-  - replace (0 <? dp) with true in * by lia.
-    assert (Hlast : dp < num_len -> bat s (num + num_len - 1) <> 48%N).
-    { intro Hlt2. replace (num + num_len - 1) with (ex - 1 - cnt) by lia. apply Hcstop. lia. }
-    destruct lz.
-    + destruct Hlz as (H46 & Hsome). cbn [andb].
-      assert (Hnl1 : 1 <= num_len) by (specialize (Hdecr num Hsome); lia).
-      destruct (dp <? num_len) eqn:Hin.
-      * apply br2_good; [exact HL|exact Hm|exact Hnum0|lia|lia|lia|apply Hlast; lia].
-      * apply br4_good; [exact HL|exact Hm|exact Hnum0|lia|lia|lia|lia].
-    + cbn [andb]. destruct (dp <? num_len) eqn:Hin.
-      * apply br3_good; [exact Hm|exact Hnum0|lia|lia|lia|].
-        destruct dec_point as [p|]; [|exact Hdot]. specialize (Hdecr p eq_refl).
-        split; [exact Hdecr|]. split; [lia|exact Hdot].
-      * apply br5_good; [exact Hm|exact Hnum0|lia|lia|lia|lia|].
-        destruct dec_point as [p|]; [|exact I]. specialize (Hdecr p eq_refl). split; [exact Hdecr|lia].
-Qed.
-
-Lemma xmid_tail s ex minus (lz : bool) num e_val (dec_point : option Z) dp :
-  Ln s < 4294967296 -> minus = 0 \/ minus = 1 ->
-  num = (if lz then minus + 1 else minus) ->
-  num < ex -> ex <= 65535 -> ex <= Ln s ->
-  (if lz then bat s num = 46%N /\ dec_point = Some num else bat s num <> 48%N) ->
-  (forall p, dec_point = Some p -> num <= p < ex /\ bat s p = 46%N) ->
-  e_val <> 0 -> -65535 <= e_val <= 65535 ->
-  dp = match dec_point with Some p => p - num + e_val | None => (ex - num) + e_val end ->
-  xgood (let* cnt := if 0 <? dp then count_in_row s (num + dp - 1) ex 48%N true
-                     else count_in_row s num ex 48%N true in
-         xlayout s ex minus lz num (ex - num) dec_point dp cnt).
-Proof.
-  intros HL Hm Hnum Hlt Hex HexL Hlz Hdec He0 Her Hdp.
-  assert (Hnum0 : 0 <= num) by (destruct lz; lia).
-  destruct (0 <? dp) eqn:Hd.
-  - destruct (count_in_row_bwd s (num + dp - 1) ex 48%N HL) as (cnt & Hc & Hcr & Hcall & Hcstop); [lia|lia|].
-    rewrite Hc. cbn [jbind].
-    apply (xlayout_good s ex minus lz num e_val dec_point dp cnt); try assumption; rewrite Hd; assumption.
-  - destruct (count_in_row_bwd s num ex 48%N HL) as (cnt & Hc & Hcr & Hcall & Hcstop); [lia|lia|].
-    rewrite Hc. cbn [jbind].
-    apply (xlayout_good s ex minus lz num e_val dec_point dp cnt); try assumption; rewrite Hd; assumption.
-Qed.
-
-Lemma xmid_good s ex minus (lz : bool) e_val :
-  Ln s < 4294967296 -> minus = 0 \/ minus = 1 ->
-  (if lz then minus + 1 else minus) < ex -> ex <= 65535 -> ex <= Ln s ->
-  (if lz then bat s (minus + 1) = 46%N else bat s minus <> 48%N) ->
-  e_val <> 0 -> -65535 <= e_val <= 65535 ->
-  xgood (xmid s ex minus lz e_val).
-Proof.
-  intros HL Hm Hlt Hex HexL Hlz He0 Her. unfold xmid. cbv zeta.
-  remember (if lz then minus + 1 else minus) as num eqn:Hnum.
-  assert (Hnum0 : 0 <= num) by (destruct lz; lia).
-  rewrite (u16_id (ex - num)) by lia.
-  assert (Hlz' : if lz then bat s num = 46%N else bat s num <> 48%N).
-  { destruct lz; rewrite Hnum; exact Hlz. }
-  destruct (strnchr_spec (Z.to_nat (ex - num)) s num 46%N) as [(q & Hs & Hq & H46 & Hbefore)|(Hs & Hnone)];
-    [lia|lia| |].
-  - rewrite Hs. cbn [jbind]. rewrite (i32_id (q - num + e_val)) by lia.
-    apply (xmid_tail s ex minus lz num e_val (Some q) (q - num + e_val)); try assumption; try lia.
-    + destruct lz; [|exact Hlz']. split; [exact Hlz'|].
-      destruct (Z.eq_dec q num) as [->|Hne]; [reflexivity|]. exfalso. apply (Hbefore num); [lia|exact Hlz'].
-    + intros p Hpe. injection Hpe as <-. split; [lia|exact H46].
-  - rewrite Hs. cbn [jbind]. rewrite (i32_id (ex - num + e_val)) by lia.
-    apply (xmid_tail s ex minus lz num e_val None (ex - num + e_val)); try assumption; try lia.
-    + destruct lz; [|exact Hlz']. exfalso. apply (Hnone num); [lia|exact Hlz'].
-    + intros p Hpe. discriminate.
-Qed.
-
-(* lyjson_exp_number() as called by lyjson_number(): after a successful scan, mantissa and exponent
-   both not zero *)
-Lemma exp_number_good s ex off minus :
-  Ln s < 4294967296 ->
-  minus = (if (bat s 0 =? 45)%N then 1 else 0) -> minus < ex -> ex < Ln s -> 2 < off ->
-  bat s ex = 101%N \/ bat s ex = 69%N ->
-  (bat s minus = 48%N -> bat s (minus + 1) = 46%N) ->
-  exp_start s ex <= Ln s ->
-  (exists k, exp_start s ex <= k /\ (forall j, exp_start s ex <= j <= k -> is_digit (bat s j) = true) /\
-             bat s k <> 48%N) ->
-  xgood (exp_number s ex off).
-Proof.
-  intros HL Hm Hlt HexL Hoff Hce H48 Hes (k & Hk & Hkd & Hk48).
-  assert (Hm01 : minus = 0 \/ minus = 1) by (destruct (bat s 0 =? 45)%N; lia).
-  rewrite exp_number_eq. replace (negb (2 <? off)) with false by lia.
-  rewrite rdin_ok by lia. cbn [jbind].
-  replace (negb ((0 <? ex) && ((bat s ex =? 101)%N || (bat s ex =? 69)%N))) with false by lia.
-  unfold UINT16_MAX. destruct (65535 <? ex) eqn:Hlong; [cbn [xgood]; discriminate|].
-  unfold strtoll. rewrite rdin_ok by lia. cbn [jbind]. fold (exp_start s ex).
-  assert (Hes' : (if (bat s (ex + 1) =? 45)%N || (bat s (ex + 1) =? 43)%N then ex + 1 + 1 else ex + 1) = exp_start s ex).
-  { unfold exp_start. destruct (bat s (ex + 1) =? 45)%N, (bat s (ex + 1) =? 43)%N; cbn [orb]; lia. }
-  rewrite Hes'.
-  assert (Hes0 : ex + 1 <= exp_start s ex) by (unfold exp_start; destruct ((bat s (ex + 1) =? 43)%N || (bat s (ex + 1) =? 45)%N); lia).
-  destruct (acc_digits_spec (S (length s)) s (exp_start s ex) 0) as (a & Ha & Hage & Hapos); [lia|lia|lia|].
-  rewrite Ha. cbn [jbind].
-  assert (Hap : 0 < a) by (apply (Hapos k Hk Hkd Hk48)).
-  unfold LLONG_MAX, LLONG_MIN.
-  remember (if (bat s (ex + 1) =? 45)%N then - a else a) as v eqn:Hv.
-  assert (Hv0 : v <> 0) by (destruct (bat s (ex + 1) =? 45)%N; lia).
-  destruct (9223372036854775807 <? v) eqn:Hmax; [cbn [jbind orb xgood]; discriminate|].
-  destruct (v <? -9223372036854775808) eqn:Hmin; [cbn [jbind orb xgood]; discriminate|].
-  cbn [jbind orb].
-  match goal with |- xgood (if ?c then _ else _) => destruct c eqn:Hrange end; [cbn [xgood]; discriminate|].
-  rewrite rdin_ok by lia. cbn [jbind]. rewrite <- Hm.
-  assert (Hml : minus <= Ln s) by lia.
-  rewrite rdin_ok by lia. cbn [jbind].
-  destruct (bat s minus =? 48)%N eqn:Hz.
-  - rewrite rdin_ok by lia. cbn [jbind].
-    replace (bat s (minus + 1) =? 46)%N with true by lia. cbn [jbind].
-    assert (Hne : minus + 1 <> ex) by (intros Heq; rewrite Heq in H48; lia).
-    apply xmid_good; [exact HL|exact Hm01|lia|lia|lia|lia|exact Hv0|lia].
-  - cbn [jbind]. apply xmid_good; [exact HL|exact Hm01|lia|lia|lia|lia|exact Hv0|lia].
-Qed.
-
-(* ================= G. lyjson_number ================= *)
-Lemma all_init_map_Some (l : bytes) : all_init (map Some l) = true.
-Proof. induction l as [|c l IH]; cbn [map all_init forallb]; [reflexivity|exact IH]. Qed.
-
-Lemma all_init_slice s from len : all_init (slice s from len) = true.
-Proof. unfold slice. apply all_init_map_Some. Qed.
-
-Lemma all_init_firstn n : forall b : buffer,
-  (forall j, (j < n)%nat -> exists v, nth_error b j = Some (Some v)) -> all_init (firstn n b) = true.
-Proof.
-  induction n as [|n IH]; intros b Hb; [reflexivity|].
-  destruct b as [|c b]; [reflexivity|]. cbn [firstn all_init forallb].
-  destruct (Hb 0%nat) as (v & Hv); [lia|]. cbn [nth_error] in Hv. injection Hv as ->.
-  cbn [andb]. apply IH. intros j Hj. destruct (Hb (S j)) as (w & Hw); [lia|].
-  exists w. exact Hw.
-Qed.
-
-Lemma pinit_all_init b k : pinit b k -> all_init (firstn (Z.to_nat k) b) = true.
-Proof.
-  intro Hp. apply all_init_firstn. intros j Hj.
-  destruct (Hp (Z.of_nat j)) as (v & Hv); [lia|]. rewrite Nat2Z.id in Hv. exists v. exact Hv.
-Qed.
-
-Definition ngood (r : jres numres) : Prop :=
-  match r with
-  | JOk r => all_init (n_value r) = true /\ forall x, n_exp r = Some x -> xprops x
-  | JErr e => e <> E_FUEL
-  | JOob => False
+Definition exp_sign_split (ex : bytes) : bool * bytes :=
+  match ex with
+  | c :: r => if (c =? 45)%N then (true, r) else if (c =? 43)%N then (false, r) else (false, ex)
+  | [] => (false, ex)
   end.
 
-Lemma ngood_slice s from len off :
-  ngood (JOk {| n_value := slice s from len; n_consumed := off; n_dynamic := false; n_exp := None |}).
+Lemma exp_sign_eq ex :
+  (match ex with 45%N :: r => (true, r) | 43%N :: r => (false, r) | _ => (false, ex) end) = exp_sign_split ex.
 Proof.
-  cbn [ngood n_value n_exp]. split; [apply all_init_slice|]. intros x Hx. discriminate.
+  destruct ex as [|c r]; [reflexivity|]. unfold exp_sign_split.
+  destruct c as [|p]; [reflexivity|].
+  do 6 (destruct p as [p|p|]; try reflexivity).
 Qed.
 
-Lemma nz_start_exp s ex : nz_start s (ex + 1) = exp_start s ex.
+Definition noexp (c : N) : Prop := c <> 101%N /\ c <> 69%N.
+
+Lemma split_exp_none M : Forall noexp M -> split_exp M = (M, None).
 Proof.
-  unfold nz_start, exp_start. destruct (bat s (ex + 1) =? 45)%N, (bat s (ex + 1) =? 43)%N; cbn [orb]; lia.
+  intro H. unfold split_exp.
+  rewrite (split_at_none 101%N M) by (eapply Forall_impl; [|exact H]; intros x (Hx & _); exact Hx).
+  apply split_at_none. eapply Forall_impl; [|exact H]. intros x (_ & Hx). exact Hx.
 Qed.
 
-Lemma number_post_good s lx : Ln s < 4294967296 -> lexok s lx -> ngood (number_post s lx).
+Lemma split_exp_some M E X :
+  Forall noexp M -> Forall noexp X -> E = 101%N \/ E = 69%N -> split_exp (M ++ E :: X) = (M, Some X).
 Proof.
-  intros HL Hlx. destruct lx as [minus o1 o2 lexp off]. unfold lexok in Hlx.
-  cbn [l_minus l_o1 l_o2 l_exp l_off] in Hlx.
-  destruct Hlx as ((Hm & Hlt & Hdm & H48 & Hfrac) & Ho2 & HoffL & Hexp).
-  unfold number_post. cbn [l_minus l_o1 l_o2 l_exp l_off].
-  assert (He : match lexp with Some e => e | None => off end = o2).
-  { destruct lexp as [ex|]; [destruct Hexp as (Hex & _); exact Hex|exact Hexp]. }
-  rewrite He.
-  assert (Hm01 : 0 <= minus <= 1) by (destruct (bat s 0 =? 45)%N; lia).
-  assert (Hnz : nz_start s 0 = minus).
-  { unfold nz_start. destruct (bat s 0 =? 45)%N eqn:H45; cbn [orb]; [lia|].
-    destruct (bat s 0 =? 43)%N eqn:H43; [|lia]. exfalso.
-    rewrite Hm in Hdm. unfold is_digit in Hdm. lia. }
-  destruct (number_is_zero_spec s 0 o2) as (z & Hz & Hzf); [exact HL|lia|lia|lia|lia|].
-  rewrite Hz. cbn [jbind]. destruct z; [apply ngood_slice|].
-  destruct (Hzf eq_refl) as (k & Hk & Hk48). rewrite Hnz in Hk.
-  destruct lexp as [ex|].
-  - destruct Hexp as (Hex & Hce & Hes & Hed). subst ex.
-    assert (Hes0 : o2 + 1 <= exp_start s o2)
-      by (unfold exp_start; destruct ((bat s (o2 + 1) =? 43)%N || (bat s (o2 + 1) =? 45)%N); lia).
-    destruct (number_is_zero_spec s (o2 + 1) off) as (ze & Hze & Hzef);
-      [exact HL|lia|lia|lia|rewrite nz_start_exp; lia|].
-    rewrite Hze. cbn [jbind]. destruct ze; [apply ngood_slice|].
-    destruct (Hzef eq_refl) as (k2 & Hk2 & Hk248). rewrite nz_start_exp in Hk2.
-    assert (Hx : xgood (exp_number s o2 off)).
-    { apply (exp_number_good s o2 off minus); [exact HL|exact Hm|lia|lia|lia|exact Hce| |lia|].
-      - intro Hz48. specialize (H48 Hz48). destruct Hfrac as [(Heq & Hn46)|(H46 & _)].
-        + exfalso. apply Hk48. replace k with minus by lia. exact Hz48.
-        + rewrite <- H48. exact H46.
-      - exists k2. split; [lia|]. split; [|exact Hk248]. intros j Hj. apply Hed. lia. }
-    destruct (exp_number s o2 off) as [x|e|]; cbn [xgood] in Hx; [|exact Hx|contradiction].
-    cbn [jbind ngood n_value n_exp]. split.
-    + apply pinit_all_init. destruct Hx as (_ & _ & _ & _ & Hp). exact Hp.
-    + intros x' Hx'. injection Hx' as <-. exact Hx.
-  - unfold LY_NUMBER_MAXLEN. destruct (22 <? off); [cbn [ngood]; discriminate|apply ngood_slice].
+  intros HM HX HE. unfold split_exp.
+  assert (HM1 : Forall (fun x => x <> 101%N) M) by (eapply Forall_impl; [|exact HM]; intros x (Hx & _); exact Hx).
+  assert (HM2 : Forall (fun x => x <> 69%N) M) by (eapply Forall_impl; [|exact HM]; intros x (_ & Hx); exact Hx).
+  destruct HE as [-> | ->].
+  - rewrite (split_at_some 101%N M X HM1). reflexivity.
+  - rewrite (split_at_none 101%N (M ++ 69%N :: X)).
+    + apply split_at_some. exact HM2.
+    + apply Forall_app. split; [exact HM1|]. constructor; [discriminate|].
+      eapply Forall_impl; [|exact HX]. intros x (Hx & _). exact Hx.
 Qed.
 
-Lemma number_good s : Ln s < 4294967296 -> ngood (number s).
+Lemma json_denote_noexp M v : Forall noexp M -> dec_denote M = Some v -> json_denote M = Some v.
 Proof.
-  intro HL. unfold number. pose proof (lex_number_spec s) as Hlex.
-  destruct (lex_number s) as [lx|e|]; cbn [lgood] in Hlex; cbn [jbind].
-  - apply number_post_good; assumption.
-  - exact Hlex.
-  - contradiction.
+  intros HM Hd. unfold json_denote. rewrite (split_exp_none M HM), Hd. destruct v as [mv me]. reflexivity.
 Qed.
 
-Lemma number_c_good s : Ln s < 4294967296 -> ngood (number_c s).
+Lemma json_denote_exp M E X mv me neg D :
+  Forall noexp M -> Forall noexp X -> E = 101%N \/ E = 69%N -> dec_denote M = Some (mv, me) ->
+  exp_sign_split X = (neg, D) -> D <> [] -> Forall isd D ->
+  json_denote (M ++ E :: X) = Some (mv, me + (if neg then - dval D 0 else dval D 0)).
 Proof.
-  intro HL. unfold number_c. apply number_good. pose proof (cstr_length s). lia.
+  intros HM HX HE Hd Hs Hne HD. unfold json_denote. rewrite (split_exp_some M E X HM HX HE), Hd.
+  rewrite exp_sign_eq, Hs. destruct D as [|d D]; [contradiction|].
+  rewrite (digits_val_dval _ 0 HD). reflexivity.
 Qed.
 
-(* every read is inside the text and its NUL, every store inside the block obtained from malloc(), no
-   assert() fires, the loops end within the fuel *)
-Theorem number_c_no_oob :
-  forall s : bytes, (Z.of_nat (length s) < 4294967296)%Z ->
-    number_c s <> JOob /\ number_c s <> JErr E_FUEL.
+Lemma same_value_refl a : same_value a a = true.
+Proof. destruct a as [m e]. unfold same_value. apply Z.eqb_refl. Qed.
+
+Lemma pow10_pos k : 0 <= k -> 0 < 10 ^ k.
+Proof. intro H. apply Z.pow_pos_nonneg; lia. Qed.
+
+Lemma sv_iff m1 e1 m2 e2 e : e <= e1 -> e <= e2 ->
+  (same_value (m1, e1) (m2, e2) = true <-> m1 * 10 ^ (e1 - e) = m2 * 10 ^ (e2 - e)).
 Proof.
-  intros s HL. pose proof (number_c_good s HL) as Hg.
-  destruct (number_c s) as [r|e|]; cbn [ngood] in Hg.
-  - split; discriminate.
-  - split; [discriminate|]. intro Heq. injection Heq as ->. apply Hg. reflexivity.
-  - contradiction.
+  intros H1 H2. unfold same_value. rewrite Z.eqb_eq.
+  remember (Z.min e1 e2) as e0 eqn:He0.
+  replace (e1 - e) with ((e1 - e0) + (e0 - e)) by lia.
+  replace (e2 - e) with ((e2 - e0) + (e0 - e)) by lia.
+  rewrite !Z.pow_add_r by lia. rewrite !Z.mul_assoc.
+  assert (Hpos : 0 < 10 ^ (e0 - e)) by (apply pow10_pos; lia).
+  split; intro H; [rewrite H; reflexivity|].
+  apply Z.mul_cancel_r in H; [exact H|lia].
 Qed.
 
-Theorem number_c_len_bounded :
-  forall s : bytes, (Z.of_nat (length s) < 4294967296)%Z ->
-  forall r x, number_c s = JOk r -> n_exp r = Some x ->
-    Z.of_nat (length (x_buf x)) = x_len x + 1 /\ 0 <= x_len x < 22 /\
-    x_len x <= x_end x <= x_len x + 1 /\ (x_branch x <> 2%N -> x_end x = x_len x) /\
-    all_init (n_value r) = true.
+Lemma pow10_neg_0 k : k < 0 -> 10 ^ k = 0.
+Proof. intro H. apply Z.pow_neg_r. exact H. Qed.
+
+Lemma same_value_trans a b c : same_value a b = true -> same_value b c = true -> same_value a c = true.
 Proof.
-  intros s HL r x Hr Hx. pose proof (number_c_good s HL) as Hg. rewrite Hr in Hg.
-  cbn [ngood] in Hg. destruct Hg as (Hinit & Hxp). destruct (Hxp x Hx) as (H1 & H2 & H3 & H4 & _).
-  split; [exact H1|]. split; [exact H2|]. split; [exact H3|]. split; [exact H4|exact Hinit].
+  destruct a as [m1 e1], b as [m2 e2], c as [m3 e3]. intros H12 H23.
+  remember (Z.min e1 (Z.min e2 e3)) as e eqn:He.
+  apply (sv_iff m1 e1 m2 e2 e) in H12; [|lia|lia].
+  apply (sv_iff m2 e2 m3 e3 e) in H23; [|lia|lia].
+  apply (sv_iff m1 e1 m3 e3 e); [lia|lia|]. congruence.
 Qed.
 
-(* ================= H. witnesses of the layout-2 defect, finite sweep ================= *)
-(* 0.5E1  0.55E1  0.055E2  0.0055E3  0.123456E3 *)
-Definition w_05E1 : bytes := [48;46;53;69;49]%N.
-Definition w_055E1 : bytes := [48;46;53;53;69;49]%N.
-Definition w_0055E2 : bytes := [48;46;48;53;53;69;50]%N.
-Definition w_00055E3 : bytes := [48;46;48;48;53;53;69;51]%N.
-Definition w_0123456E3 : bytes := [48;46;49;50;51;52;53;54;69;51]%N.
-
-Definition value_of (s : bytes) : list cell :=
-  match number_c s with JOk r => n_value r | _ => [] end.
-
-(* what lyjson_number() hands on for 0.5E1: the block holds `.` and the NUL, buf_len is 1, but two bytes
-   (`.` and `5`) were stored before the NUL, which overwrote the `5` *)
-Definition x_05E1 : expres :=
-  {| x_buf := [Some 46%N; Some 0%N]; x_len := 1; x_end := 2; x_branch := 2%N |}.
-Definition r_05E1 : numres :=
-  {| n_value := [Some 46%N]; n_consumed := 5; n_dynamic := true; n_exp := Some x_05E1 |}.
-Definition x_00055E3 : expres :=
-  {| x_buf := [Some 53%N; Some 53%N; Some 0%N]; x_len := 2; x_end := 2; x_branch := 2%N |}.
-Definition r_00055E3 : numres :=
-  {| n_value := [Some 53%N; Some 53%N]; n_consumed := 8; n_dynamic := true; n_exp := Some x_00055E3 |}.
-
-Lemma len_exact_refuted :
-  exists s r x, number_c s = JOk r /\ n_exp r = Some x /\ x_end x <> x_len x.
-Proof.
-  exists w_05E1, r_05E1, x_05E1. split; [vm_compute; reflexivity|]. split; [reflexivity|].
-  vm_compute. discriminate.
-Qed.
-
-Lemma wrong_values :
-  value_of w_05E1 = [Some 46%N] /\
-  value_of w_055E1 = [Some 46%N; Some 53%N] /\
-  value_of w_0055E2 = [Some 53%N; Some 46%N] /\
-  value_of w_00055E3 = [Some 53%N; Some 53%N] /\
-  value_of w_0123456E3 = [Some 49%N; Some 50%N; Some 46%N; Some 51%N; Some 52%N; Some 53%N].
-Proof. vm_compute. repeat split. Qed.
-
-Lemma denotes_refuted : exists s r, number_c s = JOk r /\ denotes_ok (cstr s) r = false.
-Proof. exists w_05E1, r_05E1. split; vm_compute; reflexivity. Qed.
-
-(* 0.0055E3 is 5.5; the text produced is `55`: a well-formed decimal, but another number *)
-Lemma denotes_refuted_silent :
-  exists s r, number_c s = JOk r /\ denotes_ok (cstr s) r = false /\
-              json_denote (cstr s) = Some (55, -1) /\ dec_denote (cells_bytes (n_value r)) = Some (55, 0).
-Proof. exists w_00055E3, r_00055E3. vm_compute. repeat split. Qed.
-
-(* all strings of at most five characters over  0 1 5 - + . E e *)
-Definition sweep_alphabet : bytes := [48;49;53;45;43;46;69;101]%N.
-
-Fixpoint all_strs (n : nat) (f : bytes -> bool) : bool :=
-  f [] && match n with
-          | O => true
-          | S k => forallb (fun c => all_strs k (fun t => f (c :: t))) sweep_alphabet
-          end.
-
-Lemma all_strs_spec n : forall f, all_strs n f = true ->
-  forall t, (length t <= n)%nat -> Forall (fun c => In c sweep_alphabet) t -> f t = true.
-Proof.
-  induction n as [|n IH]; intros f H t Hl Hin; cbn [all_strs] in H; apply andb_true_iff in H;
-    destruct H as [H0 H].
-  - destruct t as [|c t]; [exact H0|]. cbn [length] in Hl. lia.
-  - destruct t as [|c t]; [exact H0|]. inversion Hin as [|c' t' Hc Ht]; subst c' t'.
-    rewrite forallb_forall in H. specialize (H c Hc).
-    apply (IH (fun t => f (c :: t)) H t); [cbn [length] in Hl; lia|exact Ht].
-Qed.
-
-Definition sweep_ok (s : bytes) : bool :=
-  match number_c s with
-  | JOk r => if negb (n_dynamic r) || match n_exp r with Some x => negb (x_branch x =? 2)%N | None => false end
-             then denotes_ok (cstr s) r else true
-  | _ => true
-  end.
-
-Lemma sweep_all : all_strs 5 sweep_ok = true.
-Proof. vm_cast_no_check (eq_refl true). Qed.
-
-(* outside layout 2 the produced text denotes the number that was given, for every short string *)
-Lemma denotes_bounded :
-  forall s, (length s <= 5)%nat -> Forall (fun c => In c sweep_alphabet) s ->
-  forall r, number_c s = JOk r ->
-    (n_dynamic r = false \/ exists x, n_exp r = Some x /\ x_branch x <> 2%N) ->
-    denotes_ok (cstr s) r = true.
-Proof.
-  intros s Hl Hin r Hr Hc. pose proof (all_strs_spec 5 sweep_ok sweep_all s Hl Hin) as Hs.
-  unfold sweep_ok in Hs. rewrite Hr in Hs. destruct Hc as [Hd|(x & Hx & Hb)].
-  - rewrite Hd in Hs. cbn [negb orb] in Hs. exact Hs.
-  - rewrite Hx in Hs. replace (negb (x_branch x =? 2)%N) with true in Hs by lia.
-    rewrite orb_true_r in Hs. exact Hs.
-Qed.
-
-(* the sweep meets every layout: 1E-1 (1), 0.1E1 (2, excluded from the statement), 15E-1 (3),
-   0.1E5 (4), 1E1 (5) *)
-Lemma sweep_layouts :
-  map (fun s => match number_c s with
-                | JOk r => match n_exp r with Some x => x_branch x | None => 0%N end
-                | _ => 0%N end)
-      [[49;69;45;49]; [48;46;49;69;49]; [49;53;69;45;49]; [48;46;49;69;53]; [49;69;49]]%N
-  = [1; 2; 3; 4; 5]%N.
-Proof. vm_compute. reflexivity. Qed.
+Lemma sgz_mul minus x k : sgz minus x * k = sgz minus (x * k).
+Proof. unfold sgz. destruct (minus =? 1); ring. Qed.
